@@ -4,6 +4,7 @@ import Mathlib.Tactic.Linarith
 import Mathlib.Tactic.Ring
 import Mathlib.Tactic.Positivity
 import Mathlib.Tactic.NormNum
+import Mathlib.Data.List.Induction
 import Mathlib.Tactic.FieldSimp
 /-! Helper lemmas for C08: sorting, the interpolation function, ideal percentiles (part 1);
     `Dbl` rounding facts (part 2); record filtering / calculator structure (part 3). -/
@@ -1666,5 +1667,147 @@ theorem metricsE_unique {rs : List Dict} {ks : List Str}
       have hne : k0 ≠ k := fun h => hnd.1 (h ▸ hk')
       rw [if_neg (by simpa using hne)]
       exact ih hnd.2 hm
+
+end Stats
+
+namespace Stats
+
+/-! ## part 6 — one store object over a history of deliveries and queries -/
+
+theorem stateAfter_append (docs : List Rec) (h1 h2 : List SEv) :
+    stateAfter docs (h1 ++ h2) = stateAfter (stateAfter docs h1) h2 := by
+  unfold stateAfter; rw [List.foldl_append]
+
+theorem stateAfter_cons (docs : List Rec) (e : SEv) (h : List SEv) :
+    stateAfter docs (e :: h) = stateAfter (stepState docs e) h := rfl
+
+theorem runHist_cons (tbl : PTable) (docs : List Rec) (e : SEv) (es : List SEv) :
+    runHist tbl docs (e :: es) =
+      (match stepAns tbl docs e with | some a => [a] | none => []) ++ runHist tbl (stepState docs e) es := by
+  conv_lhs => unfold runHist
+  cases stepAns tbl docs e <;> rfl
+
+theorem runHist_append (tbl : PTable) (docs : List Rec) (h1 h2 : List SEv) :
+    runHist tbl docs (h1 ++ h2) = runHist tbl docs h1 ++ runHist tbl (stateAfter docs h1) h2 := by
+  induction h1 generalizing docs with
+  | nil => rfl
+  | cons e es ih =>
+    rw [List.cons_append, runHist_cons, runHist_cons, stateAfter_cons, ih, List.append_assoc]
+
+theorem delivered_snoc (l : List SEv) (a : SEv) :
+    delivered (l ++ [a]) = if a.clears then [] else delivered l ++ a.docs := by
+  unfold delivered
+  rw [List.reverse_append, List.reverse_singleton, List.singleton_append, List.takeWhile_cons]
+  cases h : a.clears
+  · simp
+  · simp
+
+/-- **the store holds exactly what was delivered since the last clearing hand-over** — whatever was asked in between -/
+theorem stateAfter_eq_delivered (h : List SEv) : stateAfter [] h = delivered h := by
+  induction h using List.reverseRecOn with
+  | nil => rfl
+  | append_singleton l a ih =>
+    rw [stateAfter_append, ih, delivered_snoc]
+    cases a with
+    | put d => simp [stateAfter, stepState, SEv.clears, SEv.docs]
+    | bulk ds => simp [stateAfter, stepState, SEv.clears, SEv.docs]
+    | handover c q => cases c <;> simp [stateAfter, stepState, SEv.clears, SEv.docs]
+    | query q => simp [stateAfter, stepState, SEv.clears, SEv.docs]
+
+/-- events that only read -/
+def SEv.readOnly : SEv → Bool
+  | .query _ => true
+  | .handover false _ => true
+  | _ => false
+
+theorem stepState_readOnly {e : SEv} (h : e.readOnly = true) (docs : List Rec) : stepState docs e = docs := by
+  cases e with
+  | put d => cases h
+  | bulk ds => cases h
+  | handover c q => cases c <;> first | rfl | cases h
+  | query q => rfl
+
+theorem stateAfter_filter (docs : List Rec) (h : List SEv) :
+    stateAfter docs h = stateAfter docs (h.filter (fun e => !e.readOnly)) := by
+  induction h generalizing docs with
+  | nil => rfl
+  | cons e es ih =>
+    rw [List.filter_cons]
+    cases hr : e.readOnly
+    · simp only [Bool.not_false, if_true, stateAfter_cons]; exact ih _
+    · simp only [Bool.not_true, Bool.false_eq_true, if_false, stateAfter_cons, stepState_readOnly hr]; exact ih _
+
+theorem delivered_filter (h : List SEv) : delivered h = delivered (h.filter (fun e => !e.readOnly)) := by
+  rw [← stateAfter_eq_delivered, ← stateAfter_eq_delivered]; exact stateAfter_filter [] h
+
+/-! ### answers depend on the multiset of documents only -/
+
+theorem values_perm {q : Query} {recs recs' : List Rec} {vs vs' : List Rat}
+    (h : valuesE recs q = .ok vs) (h' : valuesE recs' q = .ok vs') (hp : recs.Perm recs') : vs.Perm vs' := by
+  rw [valuesE_ok h, valuesE_ok h']
+  exact (hp.filter _).map _
+
+def QKind.orderFree : QKind → Bool
+  | .stats _ => true
+  | .mean _ => true
+  | .median _ => true
+  | .pcts _ _ => true
+  | .errRate _ _ _ => true
+  | _ => false
+
+theorem map_ok_inv {α β : Type} {f : α → β} {x : Except Err α} {b : β} (h : x.map f = .ok b) :
+    ∃ a, x = .ok a ∧ f a = b := by
+  cases x with
+  | error e => cases h
+  | ok a => exact ⟨a, rfl, by cases h; rfl⟩
+
+theorem evalQ_perm {tbl : PTable} {docs docs' : List Rec} (hp : docs.Perm docs') {k : QKind} (hk : k.orderFree = true)
+    {a a' : Ans} (h : evalQ tbl docs k = .ok a) (h' : evalQ tbl docs' k = .ok a') : a = a' := by
+  cases k with
+  | get q => cases hk
+  | unit n t o => cases hk
+  | duration t => cases hk
+  | results s => cases hk
+  | stats q =>
+    obtain ⟨vs, hv, rfl⟩ := map_ok_inv h
+    obtain ⟨vs', hv', rfl⟩ := map_ok_inv h'
+    rw [statsOf_perm (values_perm hv hv' hp)]
+  | mean q =>
+    obtain ⟨vs, hv, rfl⟩ := map_ok_inv h
+    obtain ⟨vs', hv', rfl⟩ := map_ok_inv h'
+    rw [meanOf_perm (values_perm hv hv' hp)]
+  | median q =>
+    obtain ⟨m, hm, rfl⟩ := map_ok_inv h
+    obtain ⟨m', hm', rfl⟩ := map_ok_inv h'
+    cases hv : valuesE docs q with
+    | error e => rw [hv] at hm; cases hm
+    | ok vs =>
+      cases hv' : valuesE docs' q with
+      | error e => rw [hv'] at hm'; cases hm'
+      | ok vs' =>
+        rw [hv] at hm; rw [hv'] at hm'
+        simp only [Except.bind] at hm hm'
+        rw [medianOf_perm (values_perm hv hv' hp), hm'] at hm
+        cases hm; rfl
+  | pcts q ps =>
+    obtain ⟨m, hm, rfl⟩ := map_ok_inv h
+    obtain ⟨m', hm', rfl⟩ := map_ok_inv h'
+    cases hv : valuesE docs q with
+    | error e => rw [hv] at hm; cases hm
+    | ok vs =>
+      cases hv' : valuesE docs' q with
+      | error e => rw [hv'] at hm'; cases hm'
+      | ok vs' =>
+        rw [hv] at hm; rw [hv'] at hm'
+        simp only [Except.bind] at hm hm'
+        rw [percentilesOf_perm (values_perm hv hv' hp), hm'] at hm
+        cases hm; rfl
+  | errRate t o st =>
+    obtain ⟨e, he, rfl⟩ := map_ok_inv h
+    obtain ⟨e', he', rfl⟩ := map_ok_inv h'
+    unfold errorRateE at he he'
+    obtain ⟨c, hc, rfl⟩ := map_ok_inv he
+    obtain ⟨c', hc', rfl⟩ := map_ok_inv he'
+    rw [errCountE_ok hc, errCountE_ok hc', (hp.filter _).length_eq, (hp.filter _).length_eq]
 
 end Stats
